@@ -100,6 +100,7 @@ def verify_unit(reg, contract, tier="quick"):
             state.assume(t)
         pre = state.copy()
         ex.unit_pre = pre
+        ex.unit_env = dict(env)
         ex.loop_specs = contract.loops
         ex.loop_ordinal = 0
         res.covers.append(("requires-satisfiable", list(state.pc)))
@@ -388,7 +389,58 @@ def guarded_check(s, timeout_ms):
     return out["r"]
 
 
+def split_goal(goal, hyps=(), depth=0):
+    """goal preprocessing: universally quantified goals are skolemized by hand (a fresh constant per bound
+    variable), conjunctions are split, implications move their antecedent to the hypotheses.  Returns a list of
+    (hypotheses, goal) pairs; the obligation holds iff every pair is valid.  (z3 proves the skolemized form of
+    array/modular goals in seconds where the quantified negation runs into the timeout.)"""
+    hyps = list(hyps)
+    if depth > 6:
+        return [(hyps, goal)]
+    if z3.is_quantifier(goal) and goal.is_forall():
+        cs = [z3.Const(fresh_name("sk_" + goal.var_name(i)), goal.var_sort(i)) for i in range(goal.num_vars())]
+        body = z3.substitute_vars(goal.body(), *reversed(cs))
+        return split_goal(body, hyps, depth + 1)
+    if z3.is_and(goal) and goal.num_args() <= 24:
+        out = []
+        for ch in goal.children():
+            out.extend(split_goal(ch, hyps, depth + 1))
+        return out
+    if z3.is_implies(goal):
+        return split_goal(goal.arg(1), hyps + [goal.arg(0)], depth + 1)
+    if z3.is_or(goal) and goal.num_args() == 2 and z3.is_not(goal.arg(0)):
+        return split_goal(goal.arg(1), hyps + [goal.arg(0).arg(0)], depth + 1)
+    return [(hyps, goal)]
+
+
 def solve_obligation(ob, timeout_ms, use_cvc5=True, ex=None):
+    if any(t.eq(ob.goal) for t in ob.pc) or is_true(ob.goal):
+        ob.status, ob.backend, ob.time = "proved", "syntactic", 0.0     # the goal is literally a hypothesis
+        return ob
+    parts = split_goal(ob.goal)
+    if len(parts) == 1 and not parts[0][0] and parts[0][1].eq(ob.goal):
+        return _solve_one(ob, timeout_ms, use_cvc5, ex)
+    t0 = time.time()
+    worst = "proved"
+    backends = set()
+    for hyps, g in parts:
+        sub = Obligation(ob.name, ob.kind, list(ob.pc) + list(hyps), g, ob.info)
+        _solve_one(sub, timeout_ms, use_cvc5, ex)
+        backends.add(sub.backend)
+        if sub.status == "refuted":
+            ob.status, ob.inputs, ob.backend = "refuted", getattr(sub, "inputs", None), sub.backend
+            ob.time = time.time() - t0
+            return ob
+        if sub.status == "unknown":
+            worst = "unknown"
+            ob.reason = getattr(sub, "reason", "")
+    ob.status = worst
+    ob.backend = "cvc5" if "cvc5" in backends else "z3"
+    ob.time = time.time() - t0
+    return ob
+
+
+def _solve_one(ob, timeout_ms, use_cvc5=True, ex=None):
     t0 = time.time()
     s = z3.Solver()
     s.set("timeout", timeout_ms)
@@ -425,6 +477,28 @@ def solve_obligation(ob, timeout_ms, use_cvc5=True, ex=None):
                 ob.status, ob.backend = "proved", "cvc5"
             elif r2 == "sat":
                 ob.status, ob.backend = "refuted", "cvc5"
+        if ob.status == "unknown" and ex is not None and any(z3.is_quantifier(t) for t in ob.pc):
+            # candidate counterexample from the quantifier-free part of the path condition.  It proves nothing by
+            # itself (hypotheses were dropped); it is only handed to the replay harness, which runs the real code
+            s2 = z3.Solver()
+            s2.set("timeout", min(timeout_ms, 15000))
+            for t in ob.pc:
+                if not z3.is_quantifier(t):
+                    s2.add(t)
+            s2.add(z3.Not(ob.goal))
+
+            def fn2():
+                r = s2.check()
+                o2 = {"r": str(r)}
+                if r == z3.sat:
+                    try:
+                        o2["inputs"] = model_inputs(ex, ex.unit_pre, s2.model())
+                    except Exception as e:
+                        o2["inputs"] = {"<error>": repr(e)}
+                return o2
+            out2 = forked(fn2, min(timeout_ms, 15000) / 1000.0 + 3.0) or {}
+            if out2.get("r") == "sat":
+                ob.candidate_inputs = out2.get("inputs")
     ob.time = time.time() - t0
     return ob
 
@@ -476,6 +550,14 @@ def model_inputs(ex, pre, model):
         if isinstance(v, VBytes):
             r = model.eval(v.t, model_completion=True)
             return {"bytes": seq_to_list(r, model)}
+        if isinstance(v, VABytes):
+            n = model.eval(v.n, model_completion=True)
+            nn = n.as_long() if z3.is_int_value(n) else 0
+            vals = []
+            for i in range(min(nn, 256)):
+                e = model.eval(z3.Select(v.arr, z3.IntVal(i)), model_completion=True)
+                vals.append(e.as_long() % 256 if z3.is_int_value(e) else 0)
+            return {"bytes": vals}
         if isinstance(v, VStr):
             r = model.eval(v.t, model_completion=True)
             return r.as_string() if z3.is_string_value(r) else str(r)
